@@ -409,6 +409,9 @@ func (req *Request) write(w io.Writer, usingProxy bool, extraHeaders Header) err
 			return &badStringError{"http: whitespace or control character in outgoing request-target", ruri}
 		}
 	}
+	if strings.ContainsAny(host, "\r\n") {
+		return &badStringError{"http: CR or LF in outgoing Host", host}
+	}
 	// TODO(bradfitz): escape at least newlines in ruri?
 
 	// Wrap the writer in a bufio Writer if it's not already buffered.
